@@ -10,6 +10,7 @@ PROFILE = {
     "C05": dict(universes=["collide", "reserved"], drivers=["reserved:0", "paths:%d", "compete:%d"]),
     "C06": dict(universes=["dotlocal"], drivers=["dotlocal:%d"]),
     "C08": dict(universes=["history"], drivers=["history:%d"]),
+    "C15": dict(universes=["filemeta"], drivers=["filecomments:%d"]),
     "C18": dict(universes=["collide"], drivers=["std:0", "stdpairs:0"]),
     "C19": dict(universes=["cgo"], drivers=["cgo:%d"]),
 }
@@ -124,7 +125,9 @@ def to_history(events):
         ev = e.get("ev")
         if ev == "New":
             h.append(dict(a="New", local=e["local"], prefix=e["prefix"], name=e.get("pkgname", "main"),
-                          preamble=[c["v"] for c in e.get("preamble", [])]))
+                          preamble=[c["v"] for c in e.get("preamble", [])],
+                          headers=[c["v"] for c in e.get("headers", [])], comments=[c["v"] for c in e.get("comments", [])],
+                          canonical=e.get("canonical", "")))
         elif ev in ("ImportName", "ImportAlias"):
             h.append(dict(a=ev, p=e["p"], n=e["n"]))
         elif ev == "Anon":
